@@ -1705,7 +1705,8 @@ func (p *scionPacketProcessor) validateSrcHost() disposition {
 		return pForward
 	}
 	src, err := p.scionLayer.SrcAddr()
-	if err == nil && src.IP().Is4In6() {
+	// Only IP addresses can be v4-mapped (a service address has no IP; asking for it panics).
+	if err == nil && src.Type() == addr.HostTypeIP && src.IP().Is4In6() {
 		err = ErrUnsupportedV4MappedV6Address
 	}
 	if err == nil {
